@@ -1,7 +1,7 @@
 """C01 — rate() equals the published Weng-Lin posterior (DESIGN.md section 5, C01)."""
 from __future__ import annotations
 
-from vf import gen
+from vf import dense, gen
 from vf.core import Clause, Property, Violation
 from vf.osk import IS_TM, eff_limit, eff_tau, outcome_values, rate_values
 from vf.refmodel import compare, reference
@@ -98,7 +98,16 @@ PROPERTY = Property(
             thorough=80000,
             rule="one rate() call on a generated (config, game, outcome encoding, per-call options); non-trivial = has a tie, or >= 4 teams, "
                  "or unequal team sizes, or non-default scale/kappa/gamma, or (TM) a pair with |x| >= 5; distinct = SHA-1 of the whole case",
-        )
+        ),
+        Clause(
+            name="dense-two-team-sweep",
+            strategy=dense.two_team_sweep(),
+            check=check_c01,
+            quick=3000,
+            thorough=200000,
+            rule="two-team games whose standardised gap is drawn uniformly from [-10, 10] (spacing 7e-3 quick, 1e-4 thorough), compared with the reference; "
+                 "non-trivial as above",
+        ),
     ],
     rule="generated (model kind, beta/kappa/tau/limit_sigma/gamma, 2..8 teams x 1..8 players in one of 7 value regimes, weak order, "
          "rank/score encoding, per-call tau/limit_sigma); compared per player with an independent 50-digit mpmath evaluation of the published "
